@@ -476,6 +476,7 @@ func c06producer(f func()) { f() }
 // calls must return while the worker is parked; afterwards the files must hold exactly the survivors the
 // policy prescribes.
 var c06rollTag *log.Tag
+var c06rollHandle *log.LoggerWrapper
 
 func c06rolling(w *W, y *yielder, policy string, sep bool, ci int) (string, string) {
 	dir := filepath.Join(w.Spec.Dir, fmt.Sprintf("%s.r%d", w.Spec.Name, ci))
@@ -514,7 +515,11 @@ func c06rolling(w *W, y *yielder, policy string, sep bool, ci int) (string, stri
 	done, pv, _ := callWithWatchdog(20*time.Second, func() {
 		c06producer(func() {
 			for i := 1; i <= total; i++ {
-				log.Info(ctx, tag, log.Msg(id(i)))
+				if i%3 == 0 {
+					_, _ = c06rollHandle.Write([]byte("raw " + id(i) + "\n")) // raw writes obey the same queue and policy
+				} else {
+					log.Info(ctx, tag, log.Msg(id(i)))
+				}
 			}
 		})
 	})
@@ -549,12 +554,31 @@ func c06rolling(w *W, y *yielder, policy string, sep bool, ci int) (string, stri
 		}
 	}
 	for _, i := range want {
-		if got[id(i)] != 1 {
+		expCount := 1
+		if sep && i > 0 && i%3 == 0 {
+			expCount = 2 // a raw write reaches every appender of the logger: both files when separate is on
+		}
+		if got[id(i)] != expCount {
 			return fmt.Sprintf("policy %s: item %d should have survived (buffer 100, 1 in flight, %d submitted) but is in the files %d times; %d items survived", policy, i, total+1, got[id(i)], len(got)), "policy"
 		}
 	}
 	if len(got) != len(want) {
 		return fmt.Sprintf("policy %s: %d items in the files, expected %d", policy, len(got), len(want)), "policy"
+	}
+	// submission order (events and raw writes alike) within each file
+	ents, _ := os.ReadDir(dir)
+	for _, e := range ents {
+		b, _ := os.ReadFile(filepath.Join(dir, e.Name()))
+		last := -1
+		for _, x := range idRe.FindAll(b, -1) {
+			var sh, c, i int
+			if _, err := fmt.Sscanf(string(x), "id-k%dx%d-%d", &sh, &c, &i); err == nil {
+				if i < last {
+					return fmt.Sprintf("policy %s: item %d was written to %s after item %d (a single goroutine's items must keep their order, events and raw writes alike)", policy, i, e.Name(), last), "order"
+				}
+				last = i
+			}
+		}
 	}
 	return "", ""
 }
@@ -564,6 +588,7 @@ func c06Worker(w *W) {
 	y := installYielder(uint64(w.Spec.Seed), 0, 0)
 	if w.Spec.Kind == "rolling" {
 		c06rollTag = log.RegisterTag("c06roll")
+		c06rollHandle = log.GetLogger("lg")
 		ci := 0
 		for rep := 0; rep < int(w.Spec.N); rep++ {
 			for _, pol := range []string{"Discard", "DiscardOldest"} {
